@@ -22,8 +22,8 @@ Open Scope list_scope.
 (* Soundness of the validator: when every assumed pair (definition name, type
    id) is discharged by [covers], every instance of the instance domain
    (integers written as integer literals within i64, no integral-valued float
-   literal) that is valid under a listed definition is accepted by the
-   deserialiser of the paired type. *)
+   literal, distinct member names in every object) that is valid under a listed
+   definition is accepted by the deserialiser of the paired type. *)
 Theorem C02_covers_sound :
   forall re_match fmt_ok native_ok D T A,
     (forall f n s, In (f, n) format_native_table -> fmt_ok f s = true -> native_ok n s = true) ->
@@ -61,6 +61,11 @@ Theorem C02_acc_mono :
   forall re_match native_ok T f f' t v,
     f <= f' -> de re_match native_ok T f t v <> None -> de re_match native_ok T f' t v <> None.
 Proof. exact acc_mono. Qed.
+
+Theorem C02_acc_result_not_mono :
+  exists re native T f f' t v x y,
+    f <= f' /\ de re native T f t v = Some x /\ de re native T f' t v = Some y /\ x <> y.
+Proof. exact de_result_not_mono. Qed.
 
 Theorem C02_default_val_mono :
   forall T f f' t, f <= f' -> default_val T f t <> None -> default_val T f' t <> None.
